@@ -25,7 +25,7 @@ ASSUMPTIONS = [
 ]
 GATES = ["crc_compared", "append_zero_checked", "single_bit_checked", "double_bit_checked", "odd_checked",
          "burst_checked", "validate0_checked", "lengths_enumerated",
-         "syndrome_targeted_bursts"]
+         "syndrome_targeted_bursts", "nested_frames"]
 
 FRAME_LENGTHS = (6, 8, 9, 12, 25, 134, 261, 262, 517, 1029)
 
@@ -224,6 +224,29 @@ def run(ctx):
             validate0_case(ctx, fr, newcrc)
         validate0_case(ctx, fr, b"\x00\x00\x00")
         validate0_case(ctx, fr, b"\xff\xff\xff")
+    # crafted "nested" frames: the payload carries, at the offset a SHORTER length field would point to,
+    # the CRC of the frame shortened to that length; flipping that one length bit (a guaranteed-detectable
+    # single-bit error) yields "valid shorter frame + trailing bytes", which must still be rejected
+    for it in range(ctx.n(400, 8000)):
+        L = rng.choice((19, 83, 130, 255, 256, 300, 511, 512, 700, 1023, rng.randint(8, 1023)))
+        bits = [b for b in range(10) if (L >> b) & 1 and (L ^ (1 << b)) >= 2 and (L ^ (1 << b)) + 3 <= L]
+        if not bits:
+            continue
+        b = rng.choice(bits)
+        Ls = L ^ (1 << b)
+        pay = bytearray(streams.rand_unknown_payload(rng, L))
+        inner = b"\xd3" + bytes([Ls >> 8, Ls & 0xFF]) + bytes(pay[:Ls])
+        pay[Ls:Ls + 3] = refcrc.crc_ref2(inner).to_bytes(3, "big")
+        fr = refcrc.frame(bytes(pay))
+        if refcrc.wellformed(fr) is not None:
+            raise RuntimeError("harness: nested frame not valid")
+        ctx.hit("nested_frames")
+        if not damaged_case(ctx, fr, (23 - b,), "single_bit"):
+            return
+        # and a second length bit as a 2-bit error where another nested CRC is NOT present (must reject anyway)
+        others = [x for x in range(10) if x != b]
+        if not damaged_case(ctx, fr, tuple(sorted((23 - b, 23 - rng.choice(others)))), "double_bit"):
+            return
     ctx.sample({"frame_lengths": list(FRAME_LENGTHS), "classes": ["single_bit(all)", "double_bit", "odd", "burst<=24"],
                 "example_frame_hex": make_frame(rng, 25).hex()})
     for k, v in monitors.EVAL.items():
